@@ -44,7 +44,8 @@ Inductive result :=
 Inductive event :=
 | ECall (tid : nat) (o : op) (now : Z)
 | ERet (tid : nat) (o : op) (r : result)
-| ECb (who : option nat) (c : cb).           (* None = the applier goroutine *)
+| ECb (who : option nat) (c : cb)            (* None = the applier goroutine *)
+| EMClear.                                   (* ghost: Metrics.Clear() ran (inside Clear) *)
 
 Inductive clr_stage := ClrStop | ClrDrain | ClrPolicy | ClrStore | ClrMetrics | ClrRestart | ClsStop.
 
@@ -278,7 +279,7 @@ Definition client_step (c : cfg) (s : state) (tid : nat) : option state :=
           Some (goto_pc (with_store s ∅ (em_clear (c_bdur c) (s_now s))) tid o (CClr ClrMetrics closing)
                         (clear_cbs (s_store s)))
       | CClr ClrMetrics closing =>
-          Some (goto_pc (with_pol s (s_pol s) (m_clear (s_met s))) tid o (CClr ClrRestart closing) [])
+          Some (goto_pc (with_log (with_pol s (s_pol s) (m_clear (s_met s))) EMClear) tid o (CClr ClrRestart closing) [])
       | CClr ClrRestart closing =>
           (* go c.processItems(): the previous applier goroutine has exited (it was stopped by this Clear) *)
           match s_apc s with
